@@ -111,6 +111,10 @@ func (d *Dirichlet) LogProb(x []float64) float64 {
 	}
 	var lprob float64
 	for i, x := range x {
+		if d.alpha[i] == 1 {
+			// x^0 is 1 also at x == 0: avoid 0*log(0).
+			continue
+		}
 		lprob += (d.alpha[i] - 1) * math.Log(x)
 	}
 	lprob -= d.lbeta
